@@ -169,3 +169,79 @@ func c08If(c bool, s string) string {
 	}
 	return ""
 }
+
+// H_C08_isolation: two pages import the same library; page A also defines a block of the
+// library's name (and / or imports a second library that does); whichever page was loaded
+// first (symbolic order), executing page B - which only imports the library - and the
+// library itself render the library's own definitions: one template's overrides never
+// leak into another template's (or the shared library's) block table.
+//
+//gosym:reach rendered
+func H_C08_isolation() {
+	aOwn, aLib2 := ndBool("aOwn"), ndBool("aLib2")
+	aFirst := ndBool("aFirst")
+	aExtends := ndBool("aExtendsPlain") // A extends a template without blocks
+	a := ""
+	if aExtends {
+		a = `{{ extends "/plain.jet" }}`
+	}
+	a += `{{ import "/lib.jet" }}`
+	if aLib2 {
+		a += `{{ import "/lib2.jet" }}`
+	}
+	if aOwn {
+		a += `{{ block title() }}A-title{{ end }}`
+	}
+	a += `{{ yield title() }}|{{ yield footer() }}`
+	set := hxSet(nil,
+		"/plain.jet", `P`,
+		"/lib.jet", `{{ block title() }}lib-title{{ end }}{{ block footer() }}lib-footer{{ end }}`,
+		"/lib2.jet", `{{ block title() }}lib2-title{{ end }}`,
+		"/a.jet", a,
+		"/b.jet", `{{ import "/lib.jet" }}{{ yield title() }}|{{ yield footer() }}`,
+	)
+	if aFirst {
+		hxExec(set, "/a.jet", nil, nil)
+	}
+	outB, errB := hxExec(set, "/b.jet", nil, nil)
+	if !aFirst {
+		hxExec(set, "/a.jet", nil, nil)
+	}
+	outB2, errB2 := hxExec(set, "/b.jet", nil, nil)
+	outL, errL := hxExec(set, "/lib.jet", nil, nil)
+	vfReach("rendered")
+	vfAssert(errB == nil && errB2 == nil && errL == nil, "renders")
+	vfNote(outB2)
+	vfAssert(outB == "lib-title|lib-footer" && outB2 == "lib-title|lib-footer", "a page that only imports the library renders the library's definitions")
+	vfAssert(outL == "lib-titlelib-footer", "the library itself renders its own definitions")
+}
+
+// H_C08_overrideSite: a block definition site in a layout, overridden by the executed page
+// (directly, or through an intermediate template, or by an import) with different parameter
+// defaults, context expression and default content: the site renders the overriding
+// definition with ITS defaults, ITS context and ITS default content.
+//
+//gosym:reach rendered
+func H_C08_overrideSite() {
+	how := ndChoice("how", 3) // 0 page's own, 1 intermediate template's, 2 an import's
+	over := `{{ block b(p=2, q="Q2") "pctx" }}<{{ p }}{{ q }}|{{ . }}|{{ yield content }}>{{ content }}PC{{ end }}`
+	page, mid, imp := `{{ extends "/mid.jet" }}`, `{{ extends "/layout.jet" }}`, `x`
+	switch how {
+	case 0:
+		page += over
+	case 1:
+		mid += over
+	default:
+		page += `{{ import "/imp.jet" }}`
+		imp = over
+	}
+	set := hxSet(nil,
+		"/layout.jet", `L{{ block b(p=1, q="Q1") "lctx" }}[{{ p }}{{ q }}|{{ . }}|{{ yield content }}]{{ content }}LC{{ end }}E`,
+		"/mid.jet", mid, "/imp.jet", imp, "/page.jet", page,
+	)
+	out, err := hxExec(set, "/page.jet", nil, "data")
+	vfReach("rendered")
+	vfAssert(err == nil, "renders")
+	vfNote(out)
+	vfAssert(out == "L<2Q2|pctx|PC>E", "the definition site renders the most-derived definition with that definition's defaults, context and default content")
+}
